@@ -1,0 +1,374 @@
+//! Verification-only container shim: fixed-capacity, allocation-free stand-ins
+//! for `HashMap`/`HashSet` (only compiled with `--cfg tikv_raft_rs_verif`).
+#![allow(missing_docs, dead_code, clippy::all)]
+
+use std::borrow::Borrow;
+use std::fmt;
+use std::marker::PhantomData;
+
+#[cfg(not(tikv_raft_rs_verif_cap9))]
+pub const CAP: usize = 6;
+#[cfg(tikv_raft_rs_verif_cap9)]
+pub const CAP: usize = 9;
+
+/// Stand-in for `rand::thread_rng().gen_range(min..max)`: the harness stores an
+/// arbitrary value here; the result is forced into `[min, max)`.
+pub static ELECTION_TIMEOUT_PICK: std::sync::atomic::AtomicUsize =
+    std::sync::atomic::AtomicUsize::new(0);
+
+pub fn election_timeout_pick(min: usize, max: usize) -> usize {
+    let pick = ELECTION_TIMEOUT_PICK.load(std::sync::atomic::Ordering::Relaxed);
+    if pick < max - min {
+        min + pick
+    } else {
+        min
+    }
+}
+
+pub struct VMap<K, V, S = ()> {
+    slots: [Option<(K, V)>; CAP],
+    len: usize,
+    _s: PhantomData<S>,
+}
+
+impl<K, V, S> Default for VMap<K, V, S> {
+    fn default() -> Self {
+        VMap { slots: std::array::from_fn(|_| None), len: 0, _s: PhantomData }
+    }
+}
+
+impl<K: Clone, V: Clone, S> Clone for VMap<K, V, S> {
+    fn clone(&self) -> Self {
+        VMap { slots: self.slots.clone(), len: self.len, _s: PhantomData }
+    }
+}
+
+impl<K: fmt::Debug + Eq, V: fmt::Debug, S> fmt::Debug for VMap<K, V, S> {
+    fn fmt(&self, f: &mut fmt::Formatter<'_>) -> fmt::Result {
+        f.debug_map().entries(self.iter()).finish()
+    }
+}
+
+pub struct MapIter<'a, K, V> {
+    it: std::slice::Iter<'a, Option<(K, V)>>,
+    left: usize,
+}
+impl<'a, K, V> Iterator for MapIter<'a, K, V> {
+    type Item = (&'a K, &'a V);
+    fn next(&mut self) -> Option<Self::Item> {
+        for s in self.it.by_ref() {
+            if let Some((k, v)) = s {
+                self.left -= 1;
+                return Some((k, v));
+            }
+        }
+        None
+    }
+    fn size_hint(&self) -> (usize, Option<usize>) {
+        (self.left, Some(self.left))
+    }
+}
+impl<K, V> ExactSizeIterator for MapIter<'_, K, V> {}
+
+pub struct MapIterMut<'a, K, V> {
+    it: std::slice::IterMut<'a, Option<(K, V)>>,
+    left: usize,
+}
+impl<'a, K, V> Iterator for MapIterMut<'a, K, V> {
+    type Item = (&'a K, &'a mut V);
+    fn next(&mut self) -> Option<Self::Item> {
+        for s in self.it.by_ref() {
+            if let Some((k, v)) = s {
+                self.left -= 1;
+                return Some((&*k, v));
+            }
+        }
+        None
+    }
+    fn size_hint(&self) -> (usize, Option<usize>) {
+        (self.left, Some(self.left))
+    }
+}
+impl<K, V> ExactSizeIterator for MapIterMut<'_, K, V> {}
+
+pub enum Entry<'a, K, V> {
+    Occupied(&'a mut V),
+    Vacant(&'a mut Option<(K, V)>, K, &'a mut usize),
+}
+impl<'a, K, V> Entry<'a, K, V> {
+    pub fn or_insert(self, v: V) -> &'a mut V {
+        match self {
+            Entry::Occupied(r) => r,
+            Entry::Vacant(slot, k, len) => {
+                *len += 1;
+                *slot = Some((k, v));
+                &mut slot.as_mut().unwrap().1
+            }
+        }
+    }
+}
+
+impl<K: Eq, V, S> VMap<K, V, S> {
+    pub fn with_capacity_and_hasher(_cap: usize, _s: S) -> Self {
+        Self::default()
+    }
+    fn pos<Q: ?Sized + Eq>(&self, k: &Q) -> Option<usize>
+    where
+        K: Borrow<Q>,
+    {
+        let mut i = 0;
+        while i < CAP {
+            if let Some((kk, _)) = &self.slots[i] {
+                if kk.borrow() == k {
+                    return Some(i);
+                }
+            }
+            i += 1;
+        }
+        None
+    }
+    fn free(&self) -> usize {
+        let mut i = 0;
+        while i < CAP {
+            if self.slots[i].is_none() {
+                return i;
+            }
+            i += 1;
+        }
+        panic!("verif_shim: capacity {} exceeded", CAP)
+    }
+    pub fn get<Q: ?Sized + Eq>(&self, k: &Q) -> Option<&V>
+    where
+        K: Borrow<Q>,
+    {
+        self.pos(k).map(|i| &self.slots[i].as_ref().unwrap().1)
+    }
+    pub fn get_mut<Q: ?Sized + Eq>(&mut self, k: &Q) -> Option<&mut V>
+    where
+        K: Borrow<Q>,
+    {
+        match self.pos(k) {
+            Some(i) => Some(&mut self.slots[i].as_mut().unwrap().1),
+            None => None,
+        }
+    }
+    pub fn contains_key<Q: ?Sized + Eq>(&self, k: &Q) -> bool
+    where
+        K: Borrow<Q>,
+    {
+        self.pos(k).is_some()
+    }
+    pub fn insert(&mut self, k: K, v: V) -> Option<V> {
+        match self.pos(&k) {
+            Some(i) => Some(std::mem::replace(&mut self.slots[i].as_mut().unwrap().1, v)),
+            None => {
+                let i = self.free();
+                self.slots[i] = Some((k, v));
+                self.len += 1;
+                None
+            }
+        }
+    }
+    pub fn remove<Q: ?Sized + Eq>(&mut self, k: &Q) -> Option<V>
+    where
+        K: Borrow<Q>,
+    {
+        match self.pos(k) {
+            Some(i) => {
+                self.len -= 1;
+                self.slots[i].take().map(|(_, v)| v)
+            }
+            None => None,
+        }
+    }
+    pub fn entry(&mut self, k: K) -> Entry<'_, K, V> {
+        match self.pos(&k) {
+            Some(i) => Entry::Occupied(&mut self.slots[i].as_mut().unwrap().1),
+            None => {
+                let i = self.free();
+                Entry::Vacant(&mut self.slots[i], k, &mut self.len)
+            }
+        }
+    }
+    pub fn len(&self) -> usize {
+        self.len
+    }
+    pub fn is_empty(&self) -> bool {
+        self.len == 0
+    }
+    pub fn clear(&mut self) {
+        let mut i = 0;
+        while i < CAP {
+            self.slots[i] = None;
+            i += 1;
+        }
+        self.len = 0;
+    }
+    pub fn iter(&self) -> MapIter<'_, K, V> {
+        MapIter { it: self.slots.iter(), left: self.len }
+    }
+    pub fn iter_mut(&mut self) -> MapIterMut<'_, K, V> {
+        MapIterMut { left: self.len, it: self.slots.iter_mut() }
+    }
+}
+
+impl<'a, K: Eq, V, S> IntoIterator for &'a VMap<K, V, S> {
+    type Item = (&'a K, &'a V);
+    type IntoIter = MapIter<'a, K, V>;
+    fn into_iter(self) -> Self::IntoIter {
+        self.iter()
+    }
+}
+impl<'a, K: Eq, V, S> IntoIterator for &'a mut VMap<K, V, S> {
+    type Item = (&'a K, &'a mut V);
+    type IntoIter = MapIterMut<'a, K, V>;
+    fn into_iter(self) -> Self::IntoIter {
+        self.iter_mut()
+    }
+}
+
+pub struct VSet<K, S = ()> {
+    m: VMap<K, (), S>,
+}
+impl<K, S> Default for VSet<K, S> {
+    fn default() -> Self {
+        VSet { m: VMap::default() }
+    }
+}
+impl<K: Clone, S> Clone for VSet<K, S> {
+    fn clone(&self) -> Self {
+        VSet { m: self.m.clone() }
+    }
+}
+impl<K: fmt::Debug + Eq, S> fmt::Debug for VSet<K, S> {
+    fn fmt(&self, f: &mut fmt::Formatter<'_>) -> fmt::Result {
+        f.debug_set().entries(self.iter()).finish()
+    }
+}
+impl<K: Eq, S> PartialEq for VSet<K, S> {
+    fn eq(&self, o: &Self) -> bool {
+        self.len() == o.len() && self.iter().all(|k| o.contains(k))
+    }
+}
+impl<K: Eq, S> Eq for VSet<K, S> {}
+
+pub struct SetIter<'a, K> {
+    it: MapIter<'a, K, ()>,
+}
+impl<'a, K> Iterator for SetIter<'a, K> {
+    type Item = &'a K;
+    fn next(&mut self) -> Option<&'a K> {
+        self.it.next().map(|(k, _)| k)
+    }
+    fn size_hint(&self) -> (usize, Option<usize>) {
+        self.it.size_hint()
+    }
+}
+impl<K> ExactSizeIterator for SetIter<'_, K> {}
+
+impl<K: Eq, S> VSet<K, S> {
+    pub fn with_capacity_and_hasher(_cap: usize, _s: S) -> Self {
+        Self::default()
+    }
+    pub fn iter(&self) -> SetIter<'_, K> {
+        SetIter { it: self.m.iter() }
+    }
+    pub fn contains<Q: ?Sized + Eq>(&self, k: &Q) -> bool
+    where
+        K: Borrow<Q>,
+    {
+        self.m.contains_key(k)
+    }
+    pub fn get<Q: ?Sized + Eq>(&self, k: &Q) -> Option<&K>
+    where
+        K: Borrow<Q>,
+    {
+        self.m.pos(k).map(|i| &self.m.slots[i].as_ref().unwrap().0)
+    }
+    pub fn insert(&mut self, k: K) -> bool {
+        if self.m.contains_key(&k) {
+            false
+        } else {
+            self.m.insert(k, ());
+            true
+        }
+    }
+    pub fn remove<Q: ?Sized + Eq>(&mut self, k: &Q) -> bool
+    where
+        K: Borrow<Q>,
+    {
+        self.m.remove(k).is_some()
+    }
+    pub fn len(&self) -> usize {
+        self.m.len()
+    }
+    pub fn is_empty(&self) -> bool {
+        self.m.is_empty()
+    }
+    pub fn clear(&mut self) {
+        self.m.clear()
+    }
+    pub fn drain(&mut self) -> std::vec::IntoIter<K> {
+        let mut v = Vec::new();
+        let mut i = 0;
+        while i < CAP {
+            if let Some((k, _)) = self.m.slots[i].take() {
+                v.push(k);
+            }
+            i += 1;
+        }
+        self.m.len = 0;
+        v.into_iter()
+    }
+    pub fn union<'a>(&'a self, o: &'a Self) -> impl Iterator<Item = &'a K> + 'a {
+        self.iter().chain(o.iter().filter(move |k| !self.contains(*k)))
+    }
+    pub fn intersection<'a>(&'a self, o: &'a Self) -> impl Iterator<Item = &'a K> + 'a {
+        self.iter().filter(move |k| o.contains(*k))
+    }
+    pub fn symmetric_difference<'a>(&'a self, o: &'a Self) -> impl Iterator<Item = &'a K> + 'a {
+        self.iter()
+            .filter(move |k| !o.contains(*k))
+            .chain(o.iter().filter(move |k| !self.contains(*k)))
+    }
+}
+impl<K: Eq, S> Extend<K> for VSet<K, S> {
+    fn extend<I: IntoIterator<Item = K>>(&mut self, it: I) {
+        for k in it {
+            self.insert(k);
+        }
+    }
+}
+impl<K: Eq, S> FromIterator<K> for VSet<K, S> {
+    fn from_iter<I: IntoIterator<Item = K>>(it: I) -> Self {
+        let mut s = VSet::default();
+        s.extend(it);
+        s
+    }
+}
+impl<'a, K: Eq, S> IntoIterator for &'a VSet<K, S> {
+    type Item = &'a K;
+    type IntoIter = SetIter<'a, K>;
+    fn into_iter(self) -> Self::IntoIter {
+        self.iter()
+    }
+}
+
+impl<K, V, S> VMap<K, V, S> {
+    pub fn verif_from_slots(slots: [Option<(K, V)>; CAP]) -> Self {
+        let mut len = 0;
+        let mut i = 0;
+        while i < CAP {
+            if slots[i].is_some() {
+                len += 1;
+            }
+            i += 1;
+        }
+        VMap { slots, len, _s: PhantomData }
+    }
+}
+impl<K, S> VSet<K, S> {
+    pub fn verif_from_slots(slots: [Option<K>; CAP]) -> Self {
+        VSet { m: VMap::verif_from_slots(slots.map(|o| o.map(|k| (k, ())))) }
+    }
+}
